@@ -29,13 +29,13 @@ def main(tier, seed):
             jobs.append(("props.flow", "run_scenario", (n, dict(cfg, policy=pol, k=0, oracles=("c04",), seed=seed), "C04")))
     # "the result does not depend on thread scheduling": two client threads complete two different open acts of one process; the second call runs at
     # ONE lock operation of the first (every one of them) or after it; the same reference interpreter and the hierarchy oracle judge the outcome
-    for n in (("two_if", "par_block") if tier == "quick" else ("two_if", "par_block", "two_if_else", "catch_nested_par")   # `nested` never has two acts open at once: no pair to race):
+    for n in (("two_if", "par_block") if tier == "quick" else ("two_if", "par_block", "two_if_else", "catch_nested_par")):   # `nested` never has two acts open at once: no pair to race
         # the reference interpreter covers steps / branches / plain acts; block and generator skeletons are judged by the hierarchy oracle only
         orc = ("c03",) if n in ("par_block", "catch_nested_par") else ("c03", "c04")
         jobs.append(("props.race", "run_pair_race", (n, dict(oracles=orc, keep=True, max_paths=400 if tier == "quick" else 3000, seed=seed), "C04")))
     # ... and a client action against the scheduler's worker: the client completes one act (no waiting), the signals this creates are pending, and the
     # client's next completion runs while the worker executes one of them (either side pre-empted at one lock operation)
-    for n in (("two_branches_msg",) if tier == "quick" else ("two_branches_msg", "two_seq_branches")):   # par_block leaves no signal pending for the worker after a completion
+    for n in (("two_branches_msg",) if tier == "quick" else ("two_branches_msg", "two_seq_branches")):   # (par_block leaves no signal pending for the worker after a completion)
         orc = ("c03",) if n == "par_block" else ("c03", "c04")
         jobs.append(("props.race", "run_pair_race", (n, dict(oracles=orc, keep=True, with_scheduler=True, max_paths=800 if tier == "quick" else 4000, seed=seed), "C04")))
     c.run_jobs(jobs)
